@@ -885,7 +885,14 @@ def gen_case_i(seed, tier, index):
     if kind == "prog_restart":
         # an arbitrary generated program (manual-mode clocks/resets): run, Simulator.reset(), run again
         from props import c03
+        from dsim import progdrv
         c = c03.gen_case(seed, tier)
+        for k_ in range(1, 40):
+            # (programs with the construct behind open finding F58 - a local domain shadowing a rename target - are C03's business:
+            # what the wrapped logic does there is judged, and listed as known, under C03 only)
+            if not progdrv.rename_target_shadowed(c["prog"]):
+                break
+            c = c03.gen_case(seed + k_, tier)
         c["kind"] = "prog_restart"
         return c
     if kind == "hashseed":
